@@ -88,6 +88,49 @@ def parse(pkt):
     elif t == 1 and len(body) >= 10:
         d["connflags"] = body[7]
         d["clean"] = bool(body[7] & 2)
+        d.update(parse_connect(body))
+    return d
+
+
+def parse_connect(body):
+    """strict decode of a CONNECT variable header and payload: every field announced by the flags, nothing else"""
+    d = {}
+    try:
+        if body[:7] != b"\x00\x04MQTT\x04":
+            return {"connect_malformed": "protocol name or level"}
+        fl = body[7]
+        d["keepalive"] = (body[8] << 8) | body[9]
+        k = [10]
+
+        def field(what):
+            if k[0] + 2 > len(body):
+                raise ValueError("%s: no length prefix (%d bytes left)" % (what, len(body) - k[0]))
+            n = (body[k[0]] << 8) | body[k[0] + 1]
+            if k[0] + 2 + n > len(body):
+                raise ValueError("%s: field of %d bytes exceeds the %d bytes left" % (what, n, len(body) - k[0] - 2))
+            v = body[k[0] + 2:k[0] + 2 + n]
+            k[0] += 2 + n
+            return v
+        d["cid"] = field("client identifier")
+        if fl & 1:
+            raise ValueError("reserved flag set")
+        if fl & 4:
+            d["willtopic"], d["willmsg"] = field("will topic"), field("will message")
+            d["willqos"], d["willretain"] = (fl >> 3) & 3, bool(fl & 0x20)
+            if d["willqos"] == 3:
+                raise ValueError("will QoS 3")
+        elif fl & 0x38:
+            raise ValueError("will QoS or will retain without will flag")
+        if fl & 0x80:
+            d["user"] = field("user name")
+        if fl & 0x40:
+            if not fl & 0x80:
+                pass            # MQTT 3.1.1 forbids it; the client documents that it sends an empty user name then
+            d["pass"] = field("password")
+        if k[0] != len(body):
+            raise ValueError("%d bytes beyond the last field" % (len(body) - k[0]))
+    except (ValueError, IndexError) as e:
+        d["connect_malformed"] = str(e)
     return d
 
 
